@@ -19,7 +19,12 @@ def norm_impl_line(l):
     return strip_desc(l)
 
 
+def strip_site(l):
+    return re.sub(r" site=\d+", "", l)
+
+
 def split_alts(l):
+    l = strip_site(l)
     m = re.search(r" alts=\[(\S*)\]$", l)
     if not m:
         return l, None
